@@ -94,7 +94,7 @@ From(reg, id, o) ==
 \* ---- operations ---------------------------------------------------------------
 Mutators  == {"AddStyle", "RemoveStyle", "Create", "Load"}
 Resolvers == {"Resolve", "ToXML", "MutRes"}       \* walk the basedOn chain
-Readers   == Resolvers \cup {"Info", "CloneDrop"}  \* must leave the registry as it is
+Readers   == Resolvers \cup {"Info", "List", "CloneDrop"}  \* must leave the registry as it is
 CloneOps  == {"CloneSwap", "CloneDrop"}
 OpNamesAll == Mutators \cup Readers \cup CloneOps
 
@@ -105,6 +105,7 @@ Api(op) ==
     [] op.op = "Info"    -> "GetStyleInfo"
     [] op.op = "Create"  -> "CreateCustomStyle"
     [] op.op = "MutRes"  -> "GetStyleWithInheritance+mutate"
+    [] op.op = "List"    -> "GetAllStyles/ByType/Heading/Info-lists"
     [] op.op = "CloneSwap" -> "Clone"
     [] op.op = "CloneDrop" -> "Clone"
     [] OTHER -> op.op
